@@ -2,7 +2,6 @@ package checks
 
 import (
 	"context"
-	"crypto/sha256"
 	"fmt"
 	"testing"
 	"testing/synctest"
@@ -163,7 +162,9 @@ func runLindell17(rc *harness.RunCtx, useDKG bool) harness.Outcome {
 		primary, secondary = secondary, primary
 	}
 	msg := drawMessage(w)
-	suite, err := sigecdsa.NewSuite(curve, sha256.New)
+	hname, hfn := drawHash(w, rc.Index)
+	class += " hash=" + hname
+	suite, err := sigecdsa.NewSuite(curve, hfn)
 	if err != nil {
 		return harness.Outcome{HarnessErr: err}
 	}
@@ -226,11 +227,11 @@ func runLindell17(rc *harness.RunCtx, useDKG bool) harness.Outcome {
 		if sig == nil {
 			return fail("no-signature", "the primary cosigner returned no signature")
 		}
-		if err := refECDSAVerify(kit, ecdsaK256(), sha256.New, pk, msg, sig); err != nil {
+		if err := refECDSAVerify(kit, ecdsaK256(), hfn, pk, msg, sig); err != nil {
 			return fail("independent-verifier-rejects", "%v", err)
 		}
 		other := append([]byte{1}, msg...)
-		if refECDSAVerify(kit, ecdsaK256(), sha256.New, pk, other, sig) == nil {
+		if refECDSAVerify(kit, ecdsaK256(), hfn, pk, other, sig) == nil {
 			return fail("verifies-for-other-message", "signature verifies for another message")
 		}
 		vf, err := sigecdsa.NewVerifier(suite)
